@@ -457,6 +457,28 @@ def _saver(ctx, cfg):
                      [s[0] for s in st.saved] == [os.path.join(sv.path, "model_initial.pt"), os.path.join(sv.path, "model_2.pt")], str(st.saved))
         vc.explore(run_existing, "ModelSaver/existing files")
 
+        def run_relative():
+            # history: the folder was given as a relative path and the working directory has changed since: the files go
+            # to the folder the path named when the ModelSaver was built
+            here = os.getcwd()
+            a, b = os.path.join(tmp, "wd_a"), os.path.join(tmp, "wd_b")
+            os.makedirs(a, exist_ok=True)
+            os.makedirs(b, exist_ok=True)
+            try:
+                os.chdir(a)
+                sv = SB(1, "rel", "m_{}.pt", save_initial=True)
+                os.chdir(b)
+                st = State(stop=False)
+                sv.on_train_start(st)
+                sv.on_epoch_end(st, 1)
+            finally:
+                os.chdir(here)
+            want_dir = os.path.join(os.path.realpath(a), "rel")
+            vc.check("ModelSaver/history: a relative folder names the folder it named when the ModelSaver was built, whatever the working directory is at the time of a save",
+                     [os.path.realpath(os.path.join(b, str(s[0]))) for s in st.saved] == [os.path.join(want_dir, "m_initial.pt"), os.path.join(want_dir, "m_1.pt")]
+                     and os.path.isdir(want_dir) and not os.path.exists(os.path.join(b, "rel")), str(st.saved))
+        vc.explore(run_relative, "ModelSaver/relative folder")
+
         def run_exc():
             # history: a save through the callback raised (metadata with a reserved key refused by save(), a failing
             # metadata function, a full disk) and the caller caught the error: the same ModelSaver keeps saving afterwards,
